@@ -47,6 +47,7 @@ CONSTANTS
   Weak_SeenCommitUnchecked, \* second.LastCommit is stored as seen commit after the early-exit check only
   MaxRetry,                 \* model bound: firings of the 30 s request retry timer per behaviour
   MaxPending, PerPeer,      \* maxPendingRequests (600) and maxPendingRequestsPerPeer (20) of pool.go; the MC configs scale them down
+  Weak_ResetKeepsOwner,     \* bpRequester.reset does not clear peerID: an UNASSIGNED requester still takes a block of its last peer
   Weak_AcceptsFromPreviousPeer, \* bpRequester.setBlock also takes a block from the peer asked BEFORE the last reset
   Weak_RedoAlwaysCountsPending, \* bpRequester.reset adds 1 to pool.numPending even when the requester held no block
   Weak_NilSlotAddressUnchecked, \* VerifySeenCommit compares the validator address of commit-flag slots only
@@ -225,7 +226,8 @@ ValidateBlock(st, lastPows, b) ==
 \*           makeRequestersRoutine creates no requester while np >= maxPendingRequests
 ReqEmpty == [peer |-> Nil, blk |-> NilBlk, from |-> Nil, prev |-> Nil]
 \* bpRequester.reset (redo after removePeer, or the requestRetrySeconds timer): owner and block dropped
-ResetOf(r) == [ReqEmpty EXCEPT !.prev = IF Weak_AcceptsFromPreviousPeer THEN r.peer ELSE Nil]
+\* (after a reset the requester has NO owner until it picks again: it accepts a block from nobody)
+ResetOf(r) == [ReqEmpty EXCEPT !.prev = IF Weak_AcceptsFromPreviousPeer \/ Weak_ResetKeepsOwner THEN r.peer ELSE Nil]
 ReqHeights(pool) == DOMAIN pool.req
 MaxHeightOf(peers) ==
   IF DOMAIN peers = {} THEN 0
@@ -263,7 +265,8 @@ CanPick(pool, h, p) ==
   /\ ~pool.peers[p].to
   /\ pool.peers[p].np < PerPeer
   /\ pool.peers[p].base <= h /\ h <= pool.peers[p].height
-Pick(pool, h, p) == [pool EXCEPT !.req[h].peer = p, !.peers[p].np = @ + 1]     \* bpPeer.incrPending
+Pick(pool, h, p) == [pool EXCEPT !.req[h].peer = p, !.peers[p].np = @ + 1,     \* bpPeer.incrPending
+                                 !.req[h].prev = IF Weak_AcceptsFromPreviousPeer THEN @ ELSE Nil]
 
 \* AddBlock: [pool, err] ; err = TRUE when sendError(peer) is called
 AddBlock(pool, p, b) ==
@@ -271,7 +274,8 @@ AddBlock(pool, p, b) ==
   THEN [pool |-> pool, err |-> Abs(pool.h - b.h) > 100, set |-> FALSE]
   \* bpRequester.setBlock: only from the peer the requester is asking right now
   ELSE IF pool.req[b.h].blk = NilBlk
-          /\ (pool.req[b.h].peer = p \/ (Weak_AcceptsFromPreviousPeer /\ p # Nil /\ pool.req[b.h].prev = p))
+          /\ (pool.req[b.h].peer = p \/ (Weak_AcceptsFromPreviousPeer /\ p # Nil /\ pool.req[b.h].prev = p)
+                                     \/ (Weak_ResetKeepsOwner /\ p # Nil /\ pool.req[b.h].peer = Nil /\ pool.req[b.h].prev = p))
        THEN [pool |-> [pool EXCEPT !.req[b.h].blk = b, !.req[b.h].from = p, !.np = @ - 1,
                                    !.peers = IF p \in DOMAIN pool.peers      \* bpPeer.decrPending
                                              THEN [pool.peers EXCEPT ![p].np = @ - 1] ELSE pool.peers],
